@@ -275,14 +275,18 @@ def strtobool_cases(ctx):
         ctx.count()
         ctx.nontrivial("stb:" + s)
         want = expect(s)
-        try:
-            got = strtobool(s)
-            exc = None
-        except ValueError as e:
-            got, exc = None, e
-        except Exception as e:  # noqa: BLE001
-            ctx.violation("strtobool", f"strtobool:raises-{type(e).__name__}", {"string": s, "origin": origin}, repr(e))
-            return
+        outcomes = []
+        for _ in range(3):  # the answer for a string does not depend on having been asked before
+            try:
+                outcomes.append(("value", strtobool(s)))
+            except ValueError:
+                outcomes.append(("ValueError", None))
+            except Exception as e:  # noqa: BLE001
+                ctx.violation("strtobool", f"strtobool:raises-{type(e).__name__}", {"string": s, "origin": origin}, repr(e))
+                return
+        if len(set(outcomes)) != 1:
+            ctx.violation("strtobool", "strtobool:answer-changes-when-asked-again", {"string": s, "origin": origin}, f"strtobool({s!r}) three times: {outcomes}")
+        got, exc = (outcomes[0][1], None) if outcomes[0][0] == "value" else (None, ValueError())
         if want is None:
             ok = exc is not None
             ctx.outcome("strtobool", "rejected" if ok else "ACCEPTED-UNDOCUMENTED")
